@@ -9,6 +9,6 @@ git -C /repo worktree add -q --detach $W HEAD || exit 3
 if ! git -C $W apply /verif/seeded/$S/patch.diff; then echo "PATCH-DOES-NOT-APPLY $S"; git -C /repo worktree remove --force $W; exit 4; fi
 for P in "$@"; do
   echo "=== $S / $P"
-  ( cd $HERE && VERIF_REPO=$W VERIF_EVIDENCE_DIR=/tmp/mut_evidence ./check $P --tier quick 2>&1 | grep -v "^  \[spec\]" | tail -12 )
+  ( cd $HERE && VERIF_REPO=$W VERIF_EVIDENCE_DIR=/tmp/mut_evidence VERIF_REPLAY_DIR=/tmp/mut_replays ./check $P --tier quick 2>&1 | grep -v "^  \[spec\]" | tail -12 )
 done
 git -C /repo worktree remove --force $W
